@@ -35,11 +35,13 @@ func (bp *bytesPooler) get(size int) (payload *bytesPoolItem) {
 		n := size - cap(payload.s)
 		payload.s = append(payload.s[:cap(payload.s)], make([]byte, n)...)[:size]
 	}
+	verifPool("get", payload)
 	return
 }
 
 // put returns reference to the payload slice back to pool
 // Don't use the payload after a call to put
 func (bp *bytesPooler) put(payload *bytesPoolItem) {
+	verifPool("put", payload)
 	bp.sp.Put(payload)
 }
